@@ -227,6 +227,30 @@ func runC20(cx *CheckCtx) {
 		}
 		cx.decide(ok, "put-get-key", "reputation.Put|Get", "values under 'r'‖id‖n with n the stored counter of 'c'‖id; Get scans 'r'‖id with the same id = bytes(epoch)‖peer", "reputation.Get does not scan the keys reputation.Put writes for the same (epoch, peer), or the value index is not the stored counter (values overwrite each other)", w.pos(pm.Fn.Pos()))
 	}
+	// reputation.ListByEpoch returns the ids without the one-byte family: key[1:]
+	if lm := cx.method("reputation", "ListByEpoch"); lm != nil {
+		tb := newTermBuilder(w, lm.Fn)
+		ok := false
+		for _, b := range lm.Fn.Blocks {
+			for _, ins := range b.Instrs {
+				c, isC := ins.(*ssa.Call)
+				if !isC {
+					continue
+				}
+				_, elems, isApp := appendOf(c)
+				if !isApp || len(elems) != 1 {
+					continue
+				}
+				t := tb.Term(tb.root, elems[0])
+				if t.Op == "slice" && len(t.Args) == 3 && t.Args[0].Op == "iterval" && t.Args[2].Op == "none" {
+					lo, isL := t.Args[1].IntConst()
+					fam := keyFamily(t.Args[0].Args[0].Args[0])
+					ok = isL && fam != "" && lo == int64(len(fam))
+				}
+			}
+		}
+		cx.decide(ok, "put-get-key", "reputation.ListByEpoch/id", "each listed id is the scanned key without its constant family prefix", "listByEpoch does not strip exactly the family prefix from the scanned keys: the ids it returns are not the ids get(id) accepts", w.pos(lm.Fn.Pos()))
+	}
 	// audit
 	if pm := cx.method("audit", "Put"); pm != nil {
 		pa := cx.run(pm)
